@@ -432,7 +432,7 @@ pub fn check_ctor_pair(c: &CtorPairCase) -> CheckResult {
         match route % 3 {
             0 => crate::adapter::from_seed(c.ty, seed),
             1 => crate::adapter::seed_from_u64(c.ty, x),
-            _ => crate::adapter::from_rng(c.ty, &mut crate::src::ByteSrc::new(crate::src::SrcSpec { prefix: seed.to_vec(), salt: 1, words_differ: false })),
+            _ => crate::adapter::from_rng(c.ty, &mut crate::src::ByteSrc::new(crate::src::SrcSpec { prefix: seed.to_vec(), salt: 1, words_differ: false, call_block: 0 })),
         }
     };
     let unrelated: Vec<u8> = seed.iter().map(|b| !b ^ 0x5a).collect();
@@ -531,7 +531,7 @@ impl rand_core::RngCore for ReentrantSrc {
         self.inner.fill_bytes(a);
         if self.nested < 2 {
             self.nested += 1;
-            let mut other = crate::src::ByteSrc::new(crate::src::SrcSpec { prefix: vec![0x33; 7], salt: self.nested_salt, words_differ: false });
+            let mut other = crate::src::ByteSrc::new(crate::src::SrcSpec { prefix: vec![0x33; 7], salt: self.nested_salt, words_differ: false, call_block: 0 });
             let mut g = crate::adapter::from_rng(self.ty, &mut other);
             let _ = g.next_native();
         }
@@ -652,7 +652,7 @@ pub fn check_par_ctor(c: &ParCtorCase) -> CheckResult {
     let route = c.route;
     let build = move |t: usize, k: usize, salt: u64| -> Result<[u64; 2], String> {
         let key = salt ^ ((t as u64) << 32) ^ k as u64;
-        let spec = crate::src::SrcSpec { prefix: Vec::new(), salt: key, words_differ: false };
+        let spec = crate::src::SrcSpec { prefix: Vec::new(), salt: key, words_differ: false, call_block: 0 };
         // a panicking constructor (C14's subject) is behaviour to compare, not a C19 finding
         std::panic::catch_unwind(std::panic::AssertUnwindSafe(|| {
             let mut g = match (route as usize + k) % 3 {
